@@ -760,6 +760,20 @@ def check_case(ctx: core.Ctx, case: dict, cc_tokens: typing.Optional[dict], vari
                     if old is None or _case_order(ex) < _case_order(old):
                         cc_tokens[lang][v.cc_token] = ex
         res += [(sg, what) for sg, what, _ in signatures(m, verdicts)]
+    if cfg and "reserved_identifiers" in cfg:
+        # a context with a user-extended reserved list has just been used in this process: a language object created NOW with
+        # the default configuration must treat the added words like any process would (the result depends only on the input)
+        from nunavut.lang import LanguageContextBuilder
+
+        m0 = get_model(lang, None)
+        fresh = LanguageContextBuilder(include_experimental_languages=True).set_target_language(lang).create().get_target_language()
+        for w in [x for x in cfg["reserved_identifiers"] if x not in m0.configured_reserved]:
+            verdicts0 = []
+            for t in ID_TYPES:
+                v0 = judge(m0, w, t, call(fresh, w, t), variant)
+                verdicts0.append(v0)
+                ctx.case(nt_key(lang, "default-after-override", t, w), True, sample=None, classes=[f"{lang}.default-context-after-override"])
+            res += [(sg + "|default-context-created-after-an-override-context", what) for sg, what, _ in signatures(m0, verdicts0)]
     return res
 
 
